@@ -2,7 +2,7 @@
 the current _speedups.c, pure-Python class from the current core.py, Lean model through gdrv)
 and the algebraic laws evaluated on the real classes."""
 import json
-from harness import proto, stage
+from harness import proto, stage, c18_wide
 from harness.framework import Result, pmap
 from harness.proto import Atom, B
 
@@ -11,10 +11,14 @@ TRUSTED = [
     'modelled, not verified: genshi/core.py Markup/Attrs, genshi/_speedups.c escape (hand-written Lean model tied by three-way correspondence)',
     'not modelled: CPython str.replace / % formatting / str.join (their fragments are re-implemented in Lean), PyUnicode_AsUTF8AndSize (utf8 is re-implemented and compared on every scalar)',
     'strings with lone surrogates are outside Lean Char (known finding C18-surrogate)',
+    'wave 4, modelled not verified: Markup.escape/+/*/join/%/repr/unescape/stripentities/striptags in BOTH implementations, genshi.util striptags/plaintext/stripentities(keepxmlentities), Attrs accessors, QName, Namespace (Genshi.MarkupOps, stream markup-wide, one request per implementation, result types included)',
+    'only exercised: pickle, copy, hash, re (the regular expressions of util.py are hand-written list scanners; \\w \\d classes from the generated tables of C06)',
 ]
 ASSUMPTIONS = [
     'operands are str, Markup or objects with __html__ (non-string operands: known finding C18-nonstring)',
-    '% formatting fragment: %s %% %(k)s with a single value, a tuple or a mapping',
+    '% formatting fragment: %s %r %d %% and %(k)s %(k)r %(k)d with a single value, a tuple or a mapping (flags, widths, other conversions: answered unmodelled and counted)',
+    'laws are stated for string operands (str, str subclass, Markup, Markup subclass, __html__ object); None and ints are modelled per implementation and tied only',
+    'repr is modelled for ASCII text; slices for step 1',
 ]
 
 ALPHA = ['&', '<', '>', '"', "'", ';', '#', '3', '4', 'a', 'm', 'p', 'l', 't', 'g', 'q', 'u', 'o',
@@ -507,12 +511,21 @@ def run(ctx):
     res = Result()
     for r in pmap('harness.props.c18', 'shard', args):
         res.merge(r)
+    # wave 4: the wider algebra (harness/c18_wide.py), one request per implementation
+    wide = [(ctx.seed, i, ctx.n(700, 14000), ctx.n(3, 12)) for i in range(nsh)]
+    for r in pmap('harness.c18_wide', 'shard', wide):
+        res.merge(r)
+    for r in pmap('harness.c18_wide', 'exhaustive_shard', [(i, nsh, ctx.n(6, 8), ctx.n(5, 6)) for i in range(nsh)]):
+        res.merge(r)
     L = ctx.n(4, 6)
     for r in pmap('harness.props.c18', 'exhaustive_shard', [(i, nsh, L) for i in range(nsh)]):
         res.merge(r)
     res.rule = ('random strings/operands over an alphabet rich in & < > " ; # and entity fragments, all operator/operand-kind '
                 'combinations, every Unicode scalar in 256-character chunks, all strings of length <= %d over %r; '
-                'non-trivial = contains a character that escaping changes (or an Attrs case); distinct by canonical JSON' % (L, CRIT))
+                'non-trivial = contains a character that escaping changes (or an Attrs / QName / Namespace case); distinct by canonical JSON; '
+                'wave 4 (harness/c18_wide.py): every operator once per implementation with str / str-subclass / Markup / Markup-subclass / __html__ / None / int operands, '
+                'tag- and entity-like fragments, long strings, a fixed edge corpus, all strings of length <= 6 (8) over %r through striptags/plaintext and <= 5 (6) over %r through stripentities'
+                % (L, CRIT, c18_wide.TAGCRIT, c18_wide.ENTCRIT))
     res.samples = res.samples[:6]
     return res
 
@@ -522,7 +535,7 @@ def search(ctx, res, broken):
     M, _ = impls()
     found = []
     for d in res.disagreements[:200]:
-        f = oracle_case(d['case'], M)
+        f = c18_wide.oracle(d['case']) if d['case'].get('kind') == 'w' else oracle_case(d['case'], M)
         if f:
             found.append(f)
     if found:
@@ -530,8 +543,12 @@ def search(ctx, res, broken):
     args = [(ctx.seed + 1000 + i, i, 6000, (0, 0)) for i in range(16)]
     for r in pmap('harness.props.c18', 'shard', args):
         found.extend(r.failures)
+    for r in pmap('harness.c18_wide', 'shard', [(ctx.seed + 1000 + i, i, 6000, 4) for i in range(16)]):
+        found.extend(r.failures)
     return found
 
 
 def replay(ctx, case):
+    if case.get('kind') == 'w':
+        return c18_wide.oracle(case)
     return oracle_case(case)
